@@ -45,8 +45,9 @@ Edge(u, v) == G.edge[u][v]
 IsCaseEdge(u, v) == Edge(u, v).cs # "-"
 (* the reduced view of _get_reduced_dag: case_branch edges dropped; a one-of child is visible only in the subgraph
    built to run it, i.e. as the destination of a dag (it belongs to no other scope) - unless it is also an ordinary
-   dependency of some node (a successor that is not a one-of head): then it is an ordinary node everywhere *)
-VisNode(n, oneof, dest) == ~A(n).is_child \/ n = dest \/ \E v \in Succs(n) : ~A(v).is_head
+   dependency of some node (a successor that is not a one-of head, over an edge that is not a case edge): then it is an
+   ordinary node everywhere *)
+VisNode(n, oneof, dest) == ~A(n).is_child \/ n = dest \/ \E v \in Succs(n) : ~A(v).is_head /\ ~IsCaseEdge(n, v)
 VEdge(u, v, filtered, oneof, dest) ==
     HasEdge(u, v) /\ (~filtered \/ (~IsCaseEdge(u, v) /\ VisNode(u, oneof, dest) /\ VisNode(v, oneof, dest)))
 
